@@ -5,7 +5,7 @@ import Comdex.Model.Gauge
 Pure lines (no sequence):
   gauge.split.single   total epochs <ok|panic> csv
   gauge.f64.single     raw bits                        -- TEST of the float hypothesis: real `MustFloat64` bit pattern
-  gauge.shares.single  mode alloc lp child <ok|err|panic> rewards      -- real `GetFarmingRewardsData` (mode 0 plain, 1 master)
+  gauge.shares.single  mode alloc mpos cpos <ok|err|panic> rewards   (mpos `amt:twa:dec,…` per master-pool farmer; cpos per farmer `amt:twa:dec+…` over child pools or `0`)      -- real `GetFarmingRewardsData` (mode 0 plain, 1 master)
 Sequence lines:
   gauge.begin   minDur
   gauge.sfgauge gid denom dur now               -- swap-fee gauge created by pool creation (creates the epoch record)
@@ -13,7 +13,7 @@ Sequence lines:
   gauge.fund    denom amount
   gauge.extnew  eid denom amount funds <ok|err>
   gauge.block   now
-  gauge.dist    gid alloc mode lp child <ok|err|panic> recv rewards      -- inputs and result of the real share computation
+  gauge.dist    gid alloc mode mpos cpos <ok|err|panic> recv rewards      -- inputs and result of the real share computation
   gauge.extpay  eid avail daysLeft totalShare nets recv paid             -- one external-programme payout in this block
   gauge.extoff  eid
   gauge.run     <ok>                            -- the real BeginBlocker ran; the model block is executed here
@@ -82,6 +82,22 @@ def init : St := {}
 
 def csvInts (s : String) : Option (List Int) := if s = "-" then some [] else parseIntList s
 def csvNats (s : String) : Option (List Nat) := if s = "-" then some [] else parseNatList s
+
+def parsePos (s : String) : Option Pos :=
+  match s.splitOn ":" with
+  | [a, t, d] => do let a ← parseInt? a; let t ← parseInt? t; let d ← parseInt? d; pure { amt := a, twa := t, dec := d }
+  | _ => none
+
+/-- master positions `a:t:d,a:t:d,…` and child positions per farmer `a:t:d+a:t:d,0,…` (`0` = no child position) -/
+def parseFarmers (mpos cpos : String) : Option (List Farmer) :=
+  if mpos = "-" || mpos = "" then some [] else do
+    let ms ← (mpos.splitOn ",").mapM parsePos
+    let cs ← if cpos = "-" || cpos = "" then pure (ms.map (fun _ => ([] : List Pos)))
+             else (cpos.splitOn ",").mapM (fun e => if e = "0" then some [] else (e.splitOn "+").mapM parsePos)
+    if cs.length = ms.length then pure ((ms.zip cs).map (fun p => { master := p.1, children := p.2 })) else none
+
+def weightsOf (mode : String) (fs : List Farmer) : List Int :=
+  if mode = "1" then fs.map weight else fs.map (fun f => posValue f.master)
 
 def lookupBal (bals : List (String × Int)) (d : String) : Int :=
   match bals.find? (·.1 = d) with | some p => p.2 | none => 0
@@ -355,16 +371,16 @@ def handle (st : St) (seq : String) (f : List String) : St × List String :=
       let mon := if floatHypOn raw bits then [] else [s!"MON\t{seq}\tfloat_hyp"]
       (st, d ++ mon)
     | _, _ => (st, [s!"BAD\t{seq}\tf64"])
-  | ["gauge.shares.single", mode, alloc, lp, child, outcome, rewards] =>
-    match parseInt? alloc, csvInts lp, csvInts child, csvInts rewards with
-    | some a, some lp, some child, some rewards =>
-      let el := if mode = "1" then zipMin lp child else lp
-      let m := if mode = "1" then sharesMaster f64 a lp child else sharesPlain f64 a lp
+  | ["gauge.shares.single", mode, alloc, mpos, cpos, outcome, rewards] =>
+    match parseInt? alloc, parseFarmers mpos cpos, csvInts rewards with
+    | some a, some fs, some rewards =>
+      let el := weightsOf mode fs
+      let m := sharesFrom f64 a (mode = "1") fs
       let ms := match m with | .ok l => s!"ok\t{showIntList l}" | .error _ => "panic\t"
       let d := if ms = s!"{outcome}\t{showIntList rewards}" then [] else [s!"DIFF\t{seq}\tmodel={ms}\timpl={outcome} {showIntList rewards}"]
       let mon := if outcome = "ok" then shareMons seq a el rewards else []
       (st, d ++ mon)
-    | _, _, _, _ => (st, [s!"BAD\t{seq}\tshares"])
+    | _, _, _ => (st, [s!"BAD\t{seq}\tshares"])
   | ["gauge.begin", minDur] =>
     match parseInt? minDur with
     | some m => ({ minDur := m }, [])
@@ -422,11 +438,11 @@ def handle (st : St) (seq : String) (f : List String) : St × List String :=
     match parseInt? now with
     | some now => ({ st with now := now, dists := [], extIns := [], extOffs := [] }, [])
     | none => (st, [s!"BAD\t{seq}\tblock"])
-  | ["gauge.dist", gid, alloc, mode, lp, child, outcome, recv, rewards] =>
-    match parseNat? gid, parseInt? alloc, csvInts lp, csvInts child, csvNats recv, csvInts rewards with
-    | some gid, some a, some lp, some child, some recv, some rewards =>
-      let el := if mode = "1" then zipMin lp child else lp
-      let m := if mode = "1" then sharesMaster f64 a lp child else sharesPlain f64 a lp
+  | ["gauge.dist", gid, alloc, mode, mpos, cpos, outcome, recv, rewards] =>
+    match parseNat? gid, parseInt? alloc, parseFarmers mpos cpos, csvNats recv, csvInts rewards with
+    | some gid, some a, some fs, some recv, some rewards =>
+      let el := weightsOf mode fs
+      let m := sharesFrom f64 a (mode = "1") fs
       -- a disabled pool / missing price is an error before any arithmetic: taken from the implementation
       let ms := if outcome = "err" then "err\t" else match m with | .ok l => s!"ok\t{showIntList l}" | .error _ => "panic\t"
       let d := if ms = s!"{outcome}\t{showIntList rewards}" then [] else [s!"DIFF\t{seq}\tmodel={ms}\timpl={outcome} {showIntList rewards}"]
@@ -439,7 +455,7 @@ def handle (st : St) (seq : String) (f : List String) : St × List String :=
         | none => [s!"BAD\t{seq}\tdist for unknown gauge"]
       let dd : DistData := if outcome = "err" then .err else if outcome = "panic" then .ok [-1] else .ok rewards
       ({ st with dists := st.dists ++ [{ gid := gid, d := dd, recv := recv }] }, d ++ mon ++ da)
-    | _, _, _, _, _, _ => (st, [s!"BAD\t{seq}\tdist"])
+    | _, _, _, _, _ => (st, [s!"BAD\t{seq}\tdist"])
   | ["gauge.extpay", eid, avail, days, total, nets, recv, paid] =>
     match parseNat? eid, parseInt? avail, parseInt? days, parseInt? total, csvInts nets, csvNats recv, csvInts paid with
     | some eid, some avail, some days, some total, some nets, some recv, some paid =>
